@@ -140,6 +140,7 @@ static int vp_hard_errno;       /* its errno */
 static int vp_hard_call;        /* 1 open 2 write 3 sync 4 close 5 fstat 6 fcntl 7 read 8 other */
 static int vp_tolerated;        /* directory fsync failed with EINVAL/EBADF */
 static int vp_faults = 1;       /* harness may switch all hard failures off */
+static int vp_quiet;            /* harness: every call succeeds (set-up phases checked elsewhere) */
 
 /* writable-file monitor */
 static unsigned char vp_stream[VP_TOTAL];     /* identity of the appended bytes */
@@ -211,7 +212,10 @@ vp_fd_name(int fd) {
 
 static int
 vp_kind(int allow_special) {
-  uint8_t k = vp_u8();
+  uint8_t k;
+  if (vp_quiet)
+    return VP_R_OK;
+  k = vp_u8();
   VP_ASSUME(k <= 3);
   if (k == VP_R_EINTR) {
     VP_ASSUME(vp_intrs_left > 0);
@@ -257,7 +261,10 @@ vp_open(const char *name, int flags, ...) {
     return -1;
   }
   if (k == VP_R_FAIL) {
-    vp_fail_hard(1, vp_pick_errno());
+    int e = vp_pick_errno();
+    /* EINVAL with O_CLOEXEC set is the "special" result above */
+    VP_ASSUME(!(flags & O_CLOEXEC) || e != EINVAL);
+    vp_fail_hard(1, e);
     return -1;
   }
 
